@@ -584,7 +584,10 @@ class FileSet:
             return self.collect(
                 time_args.start, time_args.stop, filters=filters,
             )
-        elif isinstance(time_args, (datetime, str)):
+        else:
+            # Everything else is a timestamp in one of the notations that
+            # find_closest() understands (str, datetime, date, numpy or
+            # pandas timestamp, ...); something else is rejected there.
             filename = self.find_closest(time_args, filters=filters)
             if filename is None:
                 return None
